@@ -97,7 +97,10 @@ func hasBigInt(code string) bool {
 	return false
 }
 
-func judge(c Case) vdrv.Verdict {
+func judge(c Case) vdrv.Verdict { return judgeDepth(c, 0) }
+
+// judgeDepth: depth > 0 marks the recursive judgement of a rewritten input (see classify in known_test.go).
+func judgeDepth(c Case, depth int) vdrv.Verdict {
 	ref, err := W.Script(c.Code, false)
 	if err != nil {
 		return vdrv.Skip("node-infra")
@@ -149,8 +152,9 @@ func judge(c Case) vdrv.Verdict {
 		return v
 	}
 	v := vdrv.Fail(fmt.Sprintf("lowered program (target=%s unsupported=%v supported=%v minify=%v) behaves differently", c.Target, c.Unsupported, c.Supported, c.Minify), ref.Trace(), got.Trace()+"\n--- output\n"+out)
-	// findings recognised by repairing the output (precise) come first, the static signatures after them
-	if id := classifyByRepair(c, out, ref.Trace()); id != "" {
+	// findings confirmed by an output repair or an input rewrite (precise) come first, the older static
+	// signatures after them
+	if id := classify(c, out, ref.Trace(), got.Trace(), depth); id != "" {
 		v.Known = id
 		return v
 	}
